@@ -280,7 +280,25 @@ func predIndex(b, from *ssa.BasicBlock) int {
 
 // enterLoop handles a loop header: checks the invariant on entry, havocs what the loop
 // may modify, assumes the invariant, and returns the state for an arbitrary iteration.
+// iterOfLoop: the map iteration driven by the loop with header h (iterpos()/iterlen()/iterkey() in the
+// invariants of that loop refer to it, whatever iteration was started last).
+func (vc *VC) iterOfLoop(h *ssa.BasicBlock) *mapIter {
+	for _, instr := range h.Instrs {
+		if nx, ok := instr.(*ssa.Next); ok {
+			if rng, ok := nx.Iter.(*ssa.Range); ok {
+				if mi, ok := vc.iters[rng]; ok {
+					return mi
+				}
+			}
+		}
+	}
+	return nil
+}
+
 func (vc *VC) enterLoop(fr *Frame, h *ssa.BasicBlock, edges []edgeState, ord int) *State {
+	if mi := vc.iterOfLoop(h); mi != nil {
+		vc.lastIter = mi
+	}
 	var entryEdges []edgeState
 	for _, e := range edges {
 		if !isBackEdge(e.from, h) {
@@ -509,6 +527,11 @@ func firstPos(b *ssa.BasicBlock) token.Pos {
 
 // backEdge checks invariant preservation for the edge from -> h.
 func (vc *VC) backEdge(fr *Frame, from, h *ssa.BasicBlock, st *State, ord int) {
+	if mi := vc.iterOfLoop(h); mi != nil {
+		saved := vc.lastIter
+		vc.lastIter = mi
+		defer func() { vc.lastIter = saved }()
+	}
 	// string shapes of loop-carried strings
 	for _, instr := range h.Instrs {
 		phi, ok := instr.(*ssa.Phi)
